@@ -285,7 +285,7 @@ func master() int {
 			sawDone := false
 			// watchdog: a worker that reports nothing for a long time has a thread blocked outside the scheduler's control
 			// (the scheduler itself detects deadlocks among managed threads); it is killed and reported as an infrastructure problem
-			stallS := envInt("VERIF_STALL_S", map[string]int{"quick": 900, "thorough": 5400}[tier])
+			stallS := envInt("VERIF_STALL_S", map[string]int{"quick": 1800, "thorough": 5400}[tier])
 			var current atomic.Int64
 			current.Store(-1)
 			beat := make(chan struct{}, 1)
